@@ -9,6 +9,7 @@ import (
 	fmt "fmt"
 	"io"
 	"io/ioutil"
+	"math"
 	"os"
 	"sync"
 
@@ -298,7 +299,9 @@ func decodeAngle(angle int64, offset int64, granularity int32) float64 {
 }
 
 func encodeAngle(angle float64, offset int64, granularity int32) int64 {
-	return (int64(angle/.000000001) - offset) / int64(granularity)
+	// Round to the nearest unit, rather than truncating, since angles that
+	// are exact at the file's resolution aren't exact as floats.
+	return int64(math.Round((angle/.000000001 - float64(offset)) / float64(granularity)))
 }
 
 func decodeDeltaEncodedAngle(angle int64, last int64, offset int64, granularity int32) float64 {
